@@ -106,6 +106,7 @@ type CallsiteReq struct {
 	Params []string
 	Req    Clause
 	Pkg    string
+	Optional bool // callsite-if-present: the clause constrains the call should it (re)appear; matching nothing is fine
 }
 
 // SpecSet is everything parsed from contract and extern files.
@@ -428,7 +429,7 @@ func (ss *SpecSet) LoadContractFile(path string, pkgPath string) error {
 				}
 			}
 			ss.Sweeps = append(ss.Sweeps, sd)
-		case "callsite", "package-callsite":
+		case "callsite", "package-callsite", "callsite-if-present":
 			owner := cur
 			if word == "package-callsite" {
 				owner = nil
@@ -457,7 +458,7 @@ func (ss *SpecSet) LoadContractFile(path string, pkgPath string) error {
 			if err != nil {
 				return err
 			}
-			cr := &CallsiteReq{Callee: head, Params: params, Req: c, Pkg: pkgPath}
+			cr := &CallsiteReq{Callee: head, Params: params, Req: c, Pkg: pkgPath, Optional: word == "callsite-if-present"}
 			if owner != nil {
 				owner.Callsites = append(owner.Callsites, cr)
 			} else {
